@@ -450,3 +450,125 @@ Proof.
     + intros r q Hr G. apply In_batch_rids in Hr. destruct Hr as (_ & Hc & _).
       rewrite H31 in G. eauto.
 Qed.
+
+(* ------------------------------------------------------------------ *)
+(* EndBlock: new_one *)
+
+Lemma CtxMono_new_one cfg s c :
+  wf_cfg cfg -> Inv cfg s -> In (height s, c) (newq s) -> height s < HEIGHT_BOUND ->
+  CtxMono s (new_one cfg s c).
+Proof.
+  intros Hcfg HI Hdue Hb c' rc' G'. right.
+  assert (Hex : exists rc, get c' (ctxs s) = Some rc).
+  { destruct (new_one_spec cfg s c HI Hdue) as (rc0 & Erc0 & _ & _ & Ht & _).
+    destruct (eqb_spec c' c) as [->|Hn]; [eauto|].
+    rewrite (t_ctxs _ _ _ Ht) in G' by assumption. eauto. }
+  destruct Hex as (rc & G). exists rc. split; [exact G|].
+  destruct (C09_static_new_one _ _ _ _ _ _ Hcfg HI Hdue Hb G G') as (_ & E2 & _ & E4 & _).
+  destruct (C10_total_bound_new_one _ _ _ _ _ _ Hcfg HI Hdue Hb G G') as [Ec|(_ & Ec & _)];
+    repeat split; try assumption; lia.
+Qed.
+
+Lemma T_quiet_step cfg s s' : T cfg s -> CtxMono s s' -> Q s s' -> reqs s' = reqs s -> T cfg s'.
+Proof.
+  intros (Hti & Hsh) Hm Hq Er. split; [eapply TI_step; eauto using Q_NI|eapply Sh_quiet; eauto].
+Qed.
+
+Lemma issue_all_Sh cfg s c rc n i provs :
+  Sh cfg s -> (forall j, i <= j -> tr (c, n, height s, j) (log s) = []) ->
+  Sh cfg (issue_all s c rc n i provs).
+Proof.
+  revert s i. induction provs as [|p t IH]; intros s i Hsh Hf; cbn [issue_all]; [assumption|].
+  apply IH.
+  - rewrite issue_one_eq.
+    eapply (Sh_issue cfg s _ (c, n, height s, i) (new_req s rc p) (c_cons rc));
+      [exact Hsh|apply Hf; lia|reflexivity|reflexivity|reflexivity].
+  - intros j Hj. rewrite issue_one_eq. sproj. rewrite tr_cons, about_issue.
+    destruct (eqb_spec ((c, n, height s, i) : ReqId) (c, n, height s, j)) as [E|_]; [injection E; lia|].
+    apply Hf. lia.
+Qed.
+
+Lemma issue_all_In s c rc n i provs r p cons f :
+  In (EvIssue r p cons f) (log (issue_all s c rc n i provs)) ->
+  In (EvIssue r p cons f) (log s)
+  \/ (rid_ctx r = c /\ rid_batch r = n /\ cons = c_cons rc /\ (c_super rc = true <-> f = 0)).
+Proof.
+  revert s i. induction provs as [|a t IH]; intros s i Hin; cbn [issue_all] in Hin; [now left|].
+  apply IH in Hin. destruct Hin as [Hin|Hn]; [|now right].
+  rewrite issue_one_eq in Hin. sproj. destruct Hin as [E|Hin]; [|now left].
+  right. injection E as <- <- <- <-. cbn [rid_ctx rid_batch fst snd].
+  split; [reflexivity|]. split; [reflexivity|]. split; [reflexivity|].
+  unfold fee_of. destruct (c_super rc); [tauto|].
+  split; [discriminate|]. intros E0.
+  pose proof (C07_fee_ge_1 (pricing_of s (c_svc rc, a)) (time s) (vol_of s (c_cons rc) (c_svc rc) a)). lia.
+Qed.
+
+(* a new batch of an existing context without pending expiry *)
+Lemma T_issue cfg s sp c rc provs X :
+  Inv cfg s -> T cfg s -> get c (ctxs s) = Some rc -> get c (expq_h s) = None ->
+  Q s sp -> reqs sp = reqs s -> ctxs sp = ctxs s -> height sp = height s ->
+  let s' := del_newq (add_expq (initiate_requests sp c provs) c X) c (height s) in
+  CtxMono s s' -> T cfg s'.
+Proof.
+  intros HI HT Grc Gexp Hq Er Ec Eh. cbv zeta.
+  unfold initiate_requests, ctx_or_zero. rewrite Ec, Grc.
+  set (n := c_counter rc + 1).
+  set (s1 := issue_all sp c rc n 0 provs).
+  set (rc1 := setc_bthr (setc_breq (setc_bresp (setc_bdone (setc_counter rc n) false) 0) (len provs)) (c_thr rc)).
+  intros Hm.
+  pose proof (issue_all_frame sp c rc n 0 provs) as F. fold s1 in F. unfold same_but_reqs in F.
+  destruct F as (_ & _ & _ & _ & _ & _ & _ & _ & _ & F10 & _).
+  match goal with |- T cfg ?x => set (s' := x) in * end.
+  assert (Hq1 : Q s1 s') by (unfold s'; ext_auto).
+  assert (Er1 : reqs s' = reqs s1) by reflexivity.
+  assert (Ec1 : ctxs s' = set c rc1 (ctxs s)) by (unfold s'; sproj; now rewrite F10, Ec).
+  assert (Hincl : incl (log s) (log s')).
+  { eapply incl_tran; [apply (Q_incl _ _ Hq)|]. eapply incl_tran; [|apply (Q_incl _ _ Hq1)].
+    apply (se_log _ _ (SEq_issue_all sp c rc n 0 provs)). }
+  destruct HT as (Hti & Hsh). split.
+  - apply (TI_step' s s' (fun r p cons f =>
+        rid_ctx r = c /\ rid_batch r = n /\ cons = c_cons rc /\ (c_super rc = true <-> f = 0)));
+      try assumption.
+    + intros r p cons f Hin. apply (NI_issue _ _ _ _ _ _ (Q_NI _ _ Hq1)) in Hin.
+      apply issue_all_In in Hin. destruct Hin as [Hin|Hn]; [left|now right].
+      eapply NI_issue; [apply Q_NI, Hq|exact Hin].
+    + intros r p cons f (Hc & Hb & Hcons & Hsup). split.
+      * apply Hincl. rewrite Hc. apply (I_ctx_get _ _ _ _ (inv_ctx _ _ HI) Grc).
+      * intros rc' G'. rewrite Ec1, Hc, get_set_eq in G'. injection G' as <-.
+        unfold rc1. cbn. repeat split; try tauto; lia.
+  - eapply (Sh_quiet cfg s1); [|exact Er1|exact Hq1].
+    apply issue_all_Sh; [eapply Sh_quiet; eauto|].
+    intros j _. rewrite (Q_tr _ _ _ Hq), Eh.
+    apply (T_fresh cfg s _ rc (conj Hti Hsh)); cbn [rid_ctx rid_batch fst snd]; try assumption; [|unfold n; lia].
+    eapply no_expiry_no_reqs; eauto.
+Qed.
+
+Theorem T_new_one cfg s c :
+  wf_cfg cfg -> Inv cfg s -> T cfg s -> In (height s, c) (newq s) -> height s < HEIGHT_BOUND ->
+  T cfg (new_one cfg s c).
+Proof.
+  intros Hcfg HI HT Hdue Hh.
+  pose proof (CtxMono_new_one cfg s c Hcfg HI Hdue Hh) as Hm.
+  destruct (due_new_ctx _ _ _ HI Hdue) as (rc & Grc & Gnew & Gexp).
+  revert Hm. unfold new_one, ctx_or_zero. rewrite Grc.
+  destruct (is_state rc Running && c_rep rc && (0 <? c_total rc) && (c_total rc <=? c_counter rc)).
+  { intros Hm. apply (T_quiet_step cfg s); [assumption|assumption|ext_auto|reflexivity]. }
+  destruct (is_state rc Running).
+  2:{ intros Hm. apply (T_quiet_step cfg s); [assumption|assumption|ext_auto|reflexivity]. }
+  set (el := filter_providers s rc (c_provs rc)).
+  destruct ((0 <? len el) && (c_thr rc <=? len el)).
+  2:{ intros Hm. apply (T_quiet_step cfg s); [assumption|assumption|unfold skip_batch; ext_auto|reflexivity]. }
+  destruct (c_super rc).
+  - intros Hm. apply (T_issue cfg s s c rc (map fst el) _ HI HT Grc Gexp (Q_refl s) eq_refl eq_refl eq_refl Hm).
+  - destruct (transfer (User (c_cons rc)) Escrow (sum_prices el) s) as [x|] eqn:Et.
+    + intros Hm. pose proof (transfer_frame _ _ _ _ _ Et) as Hf.
+      pose proof (Q_transfer _ _ _ _ _ Et) as Hqx.
+      refine (T_issue cfg s _ c rc (map fst el) _ HI HT Grc Gexp _ _ _ _ Hm).
+      * ext_auto.
+      * sproj. now rewrite Hf.
+      * sproj. now rewrite Hf.
+      * sproj. now rewrite Hf.
+    + intros Hm. apply (T_quiet_step cfg s); [assumption|assumption| |].
+      * unfold on_paused. destruct (c_mod rc =? 0); ext_auto.
+      * unfold on_paused. destruct (c_mod rc =? 0); reflexivity.
+Qed.
